@@ -46,6 +46,7 @@ impl MonitorSet {
         let started = post.is_campaigning() && (!pre.is_campaigning() || post.term > pre.term) && pre.role != StateRole::Leader;
         let started = started && !(pre.role == StateRole::PreCandidate && post.role == StateRole::Candidate);
         if started {
+            self.cov("C09 election starts checked");
             if pre.pending_snap.is_none() {
                 let mut idx = pre.applied + 1;
                 while idx <= pre.commit {
@@ -55,6 +56,10 @@ impl MonitorSet {
                     }
                     idx += 1;
                 }
+            }
+            if matches!(c, Call::Campaign) && !pre.conf.is_voter(id) {
+                // only reachable with --learner-campaign: RawNode::campaign() on a non-voter
+                self.fail("nonvoter-campaign-by-api", format!("node {} is not a voter of its configuration {:?} but campaign() made it {:?} at term {} (hup() does not check promotable)", id, pre.conf, post.role, post.term));
             }
             let by_timer = matches!(c, Call::Tick) || matches!(c, Call::Step(m) if m.get_msg_type() == MT::MsgTimeoutNow);
             if by_timer && !pre.conf.is_voter(id) {
@@ -66,6 +71,7 @@ impl MonitorSet {
             Call::ApplyConfChange(_) => {
                 let idx = self.cur_apply[i];
                 let result = post.conf.clone();
+                self.cov("C09 apply_conf_change results compared");
                 if let Some(cs) = &o.conf_state {
                     if conf_key(cs) != result {
                         self.fail("conf-return-mismatch", format!("node {}: apply_conf_change returned {:?} but the active configuration is {:?}", id, conf_key(cs), result));
@@ -124,6 +130,7 @@ impl MonitorSet {
             match m.get_msg_type() {
                 MT::MsgAppend => {
                     let mut lt = m.log_term;
+                    self.cov("C13 MsgAppend checked against the leader log");
                     if self.inj("flow_control") && m.index >= 3 {
                         lt += 1;
                     }
@@ -157,6 +164,7 @@ impl MonitorSet {
                 }
                 MT::MsgHeartbeat => {
                     let matched = post.pr(m.to).map_or(0, |p| p.matched);
+                    self.cov("C13 MsgHeartbeat commit checked");
                     if m.commit > matched.min(post.commit) {
                         self.fail("heartbeat-commit", format!("leader {} emitted MsgHeartbeat to {} with commit {} > min(matched {}, commit {})", id, m.to, m.commit, matched, post.commit));
                         return;
@@ -236,6 +244,7 @@ impl MonitorSet {
                 let matching = pre.term_at(sidx) == Some(sterm) && pre.pending_request_snapshot == 0;
                 if installed {
                     let mut pc = pre.commit;
+                    self.cov("C15 snapshot installs checked");
                     if self.inj("snapshot") {
                         pc = sidx + 1;
                     }
@@ -274,6 +283,7 @@ impl MonitorSet {
                     }
                 };
                 let requested = p.pending_request_snapshot != 0 || pre.pr(m.to).map_or(false, |q| q.pending_request_snapshot != 0);
+                self.cov("C15 MsgSnapshot emissions checked");
                 // entries from next_idx (and the term before it) are unavailable iff next_idx - 1 is below the snapshot boundary
                 let needed = p.next_idx < post.first || (p.next_idx == post.first && post.bterm == 0 && post.first > 1);
                 if !requested && !needed {
@@ -307,6 +317,7 @@ impl MonitorSet {
         if let Call::Step(m) = c {
             if m.get_msg_type() == MT::MsgRequestPreVote {
                 let mut t = post.term;
+                self.cov("C16 MsgRequestPreVote steps checked");
                 if self.inj("prevote") && m.term > pre.term {
                     t = m.term;
                 }
@@ -316,6 +327,7 @@ impl MonitorSet {
             }
         }
         if pre.pre_vote && post.term > pre.term {
+            self.cov("C16 term rises under pre_vote checked");
             // a term may rise only through a message of that term, or by winning a pre-vote
             let by_msg = match c {
                 Call::Step(m) => {
@@ -344,6 +356,7 @@ impl MonitorSet {
             }
         }
         if let Some(w) = self.window.clone() {
+            self.cov("C16 calls inside a healthy-majority window");
             if i == w.leader && (post.role != StateRole::Leader || post.term != w.term) {
                 self.fail("leader-disrupted", format!("leader {} of term {} became {:?} at term {} in {} although a majority exchanged heartbeats on schedule (pre_vote and check_quorum on)", id, w.term, post.role, post.term, call_brief(c)));
             } else if w.maj.contains(&i) && post.term != w.term {
@@ -359,6 +372,7 @@ impl MonitorSet {
         let is_leader = post.role == StateRole::Leader;
         for m in new_msgs {
             if m.get_msg_type() == MT::MsgTimeoutNow && m.from == id {
+                self.cov("C17 MsgTimeoutNow emissions checked");
                 let matched = post.pr(m.to).map(|p| p.matched);
                 let mut tr = post.transferee;
                 if self.inj("transfer") {
@@ -373,6 +387,7 @@ impl MonitorSet {
             let proposing = matches!(c, Call::Propose(..) | Call::ProposeConfChange(..)) || matches!(c, Call::Step(m) if m.get_msg_type() == MT::MsgPropose);
             if proposing {
                 let direct = !matches!(c, Call::Step(_));
+                self.cov("C17 proposals during a transfer checked");
                 if post.last_index != pre.last_index || (direct && o.ret_code != 1) {
                     self.fail("proposal-during-transfer", format!("leader {} accepted a proposal while transferring to {:?} (last index {} -> {}, return code {})", id, pre.transferee, pre.last_index, post.last_index, o.ret_code));
                 }
